@@ -140,7 +140,12 @@ def drive (st : St) : List String → St × String
       if body != "n" && body != "g" && body != "b" then (st, "bad-op") else
       let cfg : Config := fun host => (st.cfg.lookup host).getD (some ⟨[], [], [], []⟩)
       let (sys', ms, r) := sysStep cfg env now st.sys h req
+      -- a token server that answers 307/308: the model takes it for what it is to the flow, a failed
+      -- token request (the state is the same), but net/http follows the redirect on its own and the
+      -- messages differ: the line is left to the oracle (recorded finding F28)
+      let redirects := [t000, t001, t010, t011, t100, t101, t110, t111].any fun t => t == "s307" || t == "s308"
       ({ st with sys := sys' },
+        if redirects then "skip" else
         " ".intercalate ([showResult r, if body = "n" then "nobody" else "closed", "same"] ++ ms.map showMsg))
   | ["sleep", _] => (st, "ok")
   | ["batch", _] => (st, "ok")
